@@ -4,7 +4,7 @@ from __future__ import annotations
 import ast
 
 from ..algebra import canon, is_const, linear_in, monomials, poly, same
-from ..interp import Interp, SELF, Event, Path, contains, field_defs, show, strip_typed, walk
+from ..interp import decided, Interp, SELF, Event, Path, contains, field_defs, show, strip_typed, walk
 from ..model import AnalysisError
 from . import util
 
@@ -343,8 +343,13 @@ def evolve_plumbing(ctx) -> None:
                 okst = False
                 if stores:
                     v = strip_typed(stores[-1].value)
-                    okst = v[0] == "ifexp" and strip_typed(v[1]) == flag and show(v[2]) == "r" or \
-                        (v[0] == "ifexp" and strip_typed(v[1]) == flag and _lr(v[2], v[3], p, f))
+                    d = decided(p, flag, stores[-1].ncond)
+                    if v[0] == "ifexp":
+                        okst = strip_typed(v[1]) == flag and _lr(v[2], v[3], p, f)
+                    elif d is not None:
+                        # `r if flag else l` as two paths: the stored index is the 2nd (flag) / 1st (not flag) of indices
+                        okst = v[0] == "unpack" and v[2] == (1 if d else 0) and len(v) > 3 and v[3] == 2 and \
+                            strip_typed(v[1])[0] == "param" and strip_typed(v[1])[2].lstrip("*") == "indices"
                 ctx.ob("CENTER", "_evolve pair centre", (stores[-1] if stores else e).loc(), okf and okst,
                        "orthogonality_center ← r if flag else l, with the flag given to the splitter" if okf and okst
                        else "the orthogonality centre stored after a pair evolution does not follow the "
